@@ -184,9 +184,16 @@ pub fn c02(r: &mut Rng, sz: &Sizes, out: &mut Vec<String>) {
     for (a, b) in pairs(r, sz) {
         out.push(format!("subset\t{}\t{}", sx(&a), sx(&b)));
     }
-    for (a, b) in oneof_wraps().into_iter().chain(wide_shapes()) {
+    for (a, b) in oneof_wraps().into_iter().chain(wide_shapes()).chain(split_unions()) {
         out.push(format!("subset\t{}\t{}", sx(&a), sx(&b)));
         out.push(format!("subset\t{}\t{}", sx(&b), sx(&a)));
+    }
+    for (_, u) in split_unions() {
+        for t in ["{\"a\":1,\"b\":\"x\"}", "{\"a\":[1],\"b\":{\"k\":2}}", "{\"a\":1,\"b\":null}", "{\"a\":1}", "{\"b\":\"x\"}", "[{\"a\":1,\"b\":\"x\"}]"] {
+            let h = crate::wire::hex(t.as_bytes());
+            out.push(format!("superset\t{}\t{h}", sx(&u)));
+            out.push(format!("supersetchk\t{}\t{h}", sx(&u)));
+        }
     }
     // every small shape — including the ones no document infers, such as a tuple of equal slots — against short
     // texts of every kind and length, through both text entry points
